@@ -189,6 +189,24 @@ class _Canon2(ast.NodeTransformer):
                     r_ = self.visit_Assign(st)
                     res += r_ if isinstance(r_, list) else [r_]
                 return res
+        # `m["a"], m["b"] = x, y` (constant-key items of one mapping name on the left, plain names / constants on the right that are not
+        # that mapping) is `m["a"] = x; m["b"] = y`
+        if len(node.targets) == 1 and isinstance(node.targets[0], (ast.Tuple, ast.List)) and isinstance(node.value, (ast.Tuple, ast.List)) \
+                and len(node.targets[0].elts) == len(node.value.elts) and node.targets[0].elts \
+                and all(isinstance(t, ast.Subscript) and isinstance(t.value, ast.Name) and isinstance(t.slice, ast.Constant) for t in node.targets[0].elts) \
+                and len({t.value.id for t in node.targets[0].elts}) == 1 \
+                and all(isinstance(e, (ast.Name, ast.Constant)) for e in node.value.elts) \
+                and not any(isinstance(e, ast.Name) and e.id == node.targets[0].elts[0].value.id for e in node.value.elts):
+            out = []
+            for i_, (t, e) in enumerate(zip(node.targets[0].elts, node.value.elts)):
+                st = ast.copy_location(ast.Assign(targets=[t], value=e), node)
+                ast.fix_missing_locations(st)
+                for x in ast.walk(st):
+                    if hasattr(x, "lineno"):
+                        x.lineno = node.lineno + i_ * 1e-3  # type: ignore[attr-defined]
+                        x.end_lineno = x.lineno  # type: ignore[attr-defined]
+                out.append(st)
+            return out
         # `a, b = X, Y` with names on the left that do not occur on the right is `a = X; b = Y`
         if len(node.targets) == 1 and isinstance(node.targets[0], (ast.Tuple, ast.List)) and isinstance(node.value, (ast.Tuple, ast.List)) \
                 and len(node.targets[0].elts) == len(node.value.elts) and all(isinstance(t, ast.Name) for t in node.targets[0].elts) \
@@ -594,9 +612,57 @@ def _module_passes(tree: ast.Module) -> None:
     rebound = {t.id for n in ast.walk(tree) if isinstance(n, (ast.Assign, ast.AugAssign, ast.AnnAssign)) and n not in tree.body
                for t in ast.walk(n.targets[0] if isinstance(n, ast.Assign) else n.target) if isinstance(t, ast.Name) and isinstance(t.ctx, ast.Store)}
 
+    def _const_elts(it: ast.AST):
+        """The constant elements of a literal tuple / list, or of a module-level name bound once to one."""
+        if isinstance(it, (ast.Tuple, ast.List)) and it.elts and all(isinstance(e, ast.Constant) for e in it.elts):
+            return list(it.elts)
+        if isinstance(it, ast.Name) and it.id in consts and it.id not in rebound and all(isinstance(e, ast.Constant) for e in consts[it.id]):
+            return list(consts[it.id])
+        return None
+
+    def _subst_name(e: ast.AST, name: str, value: ast.AST) -> ast.AST:
+        class _S1(ast.NodeTransformer):
+            def visit_Name(self, n):
+                return _c.deepcopy(value) if n.id == name and isinstance(n.ctx, ast.Load) else n
+        return _S1().visit(_c.deepcopy(e))
+
     class _G(ast.NodeTransformer):
+        def visit_DictComp(self, node: ast.DictComp):
+            self.generic_visit(node)
+            # {k: E(k) for k in ("a", "b")}  is  {"a": E("a"), "b": E("b")}
+            if len(node.generators) == 1 and not node.generators[0].ifs and isinstance(node.generators[0].target, ast.Name):
+                elts = _const_elts(node.generators[0].iter)
+                if elts is not None and len(elts) <= 8:
+                    v = node.generators[0].target.id
+                    return ast.copy_location(ast.Dict(keys=[self.visit(_subst_name(node.key, v, e)) for e in elts],
+                                                      values=[self.visit(_subst_name(node.value, v, e)) for e in elts]), node)
+            return node
+
+        def visit_Expr(self, node: ast.Expr):
+            self.generic_visit(node)
+            # setattr(x, "name", v) as a statement  is  x.name = v
+            c = node.value
+            root_ = c.args[0] if isinstance(c, ast.Call) and c.args else None
+            while isinstance(root_, ast.Attribute):
+                root_ = root_.value
+            # (an object, not a class: `setattr(SomeClass, "__add__", f)` at module level installs operators and is read as it stands)
+            if isinstance(c, ast.Call) and isinstance(c.func, ast.Name) and c.func.id == "setattr" and len(c.args) == 3 and not c.keywords \
+                    and isinstance(root_, ast.Name) and not root_.id[:1].isupper() \
+                    and isinstance(c.args[1], ast.Constant) and isinstance(c.args[1].value, str) and c.args[1].value.isidentifier():
+                return ast.copy_location(ast.Assign(targets=[ast.Attribute(value=c.args[0], attr=c.args[1].value, ctx=ast.Store())], value=c.args[2]), node)
+            return node
+
         def visit_Call(self, node: ast.Call):
             self.generic_visit(node)
+            # any(E(k) for k in ("a", "b"))  is  E("a") or E("b");  all(..) is the conjunction
+            if isinstance(node.func, ast.Name) and node.func.id in ("any", "all") and len(node.args) == 1 and not node.keywords \
+                    and isinstance(node.args[0], (ast.GeneratorExp, ast.ListComp)) and len(node.args[0].generators) == 1 \
+                    and not node.args[0].generators[0].ifs and isinstance(node.args[0].generators[0].target, ast.Name):
+                g_ = node.args[0]
+                elts = _const_elts(g_.generators[0].iter)
+                if elts is not None and 2 <= len(elts) <= 8:
+                    vals = [self.visit(_subst_name(g_.elt, g_.generators[0].target.id, e)) for e in elts]
+                    return ast.copy_location(ast.BoolOp(op=ast.Or() if node.func.id == "any" else ast.And(), values=vals), node)
             # C.method(obj, a, ..) with C a class of this module and method a plain method of it  is  obj.method(a, ..)
             if isinstance(node.func, ast.Attribute) and isinstance(node.func.value, ast.Name) and node.func.value.id in mod_classes \
                     and node.func.attr in mod_classes[node.func.value.id] and node.args and isinstance(node.args[0], (ast.Name, ast.Attribute)) \
@@ -905,12 +971,83 @@ def _dispatch_tables(fn) -> None:
     ast.fix_missing_locations(fn)
 
 
+def _accumulator_loops(fn) -> None:
+    """The accumulate-in-a-loop spelling of a comprehension is read as the comprehension:
+
+        acc = []                      acc = [E for T in IT if C]
+        for T in IT:           ==>
+            if C:                     (likewise `acc = {}` ... `acc[K] = V`, `acc = set()` ... `acc.add(E)`)
+                acc.append(E)
+
+    when the empty initialisation is the statement just before the loop and the loop does nothing else."""
+    def empty_kind(v: ast.AST) -> Optional[str]:
+        if isinstance(v, ast.List) and not v.elts:
+            return "list"
+        if isinstance(v, ast.Dict) and not v.keys:
+            return "dict"
+        if isinstance(v, ast.Call) and isinstance(v.func, ast.Name) and not v.args and not v.keywords and v.func.id in ("list", "dict", "set"):
+            return v.func.id
+        return None
+
+    def go(stmts: List[ast.stmt]) -> None:
+        i = 0
+        while i < len(stmts):
+            st = stmts[i]
+            for fld in ("body", "orelse", "finalbody"):
+                v = getattr(st, fld, None)
+                if isinstance(v, list) and v and isinstance(v[0], ast.stmt) and not isinstance(st, (ast.FunctionDef, ast.AsyncFunctionDef, ast.ClassDef)):
+                    go(v)
+            if isinstance(st, ast.Try):
+                for h in st.handlers:
+                    go(h.body)
+            init = st
+            tgt = init.targets[0] if isinstance(init, ast.Assign) and len(init.targets) == 1 else (init.target if isinstance(init, ast.AnnAssign) else None)
+            kind = empty_kind(init.value) if isinstance(init, (ast.Assign, ast.AnnAssign)) and init.value is not None else None
+            if isinstance(tgt, ast.Name) and kind and i + 1 < len(stmts) and isinstance(stmts[i + 1], ast.For) and not stmts[i + 1].orelse:
+                lp = stmts[i + 1]
+                acc = tgt.id
+                conds: List[ast.AST] = []
+                body = lp.body
+                while len(body) == 1 and isinstance(body[0], ast.If) and not body[0].orelse:
+                    conds.append(body[0].test)
+                    body = body[0].body
+                new_val = None
+                if len(body) == 1 and not any(isinstance(x, ast.Name) and x.id == acc for c_ in conds for x in ast.walk(c_)) \
+                        and not any(isinstance(x, ast.Name) and x.id == acc for x in ast.walk(lp.iter)):
+                    b = body[0]
+                    gen = ast.comprehension(target=lp.target, iter=lp.iter, ifs=conds, is_async=0)
+                    call = b.value if isinstance(b, ast.Expr) and isinstance(b.value, ast.Call) else None
+                    if call is not None and isinstance(call.func, ast.Attribute) and isinstance(call.func.value, ast.Name) and call.func.value.id == acc \
+                            and len(call.args) == 1 and not call.keywords and not any(isinstance(x, ast.Name) and x.id == acc for x in ast.walk(call.args[0])):
+                        if kind == "list" and call.func.attr == "append":
+                            new_val = ast.ListComp(elt=call.args[0], generators=[gen])
+                        elif kind == "set" and call.func.attr == "add":
+                            new_val = ast.SetComp(elt=call.args[0], generators=[gen])
+                        elif kind == "list" and call.func.attr == "extend" and not conds:
+                            inner = ast.Name(id=f"_{acc}__item", ctx=ast.Load())
+                            new_val = ast.ListComp(elt=inner, generators=[gen, ast.comprehension(
+                                target=ast.Name(id=f"_{acc}__item", ctx=ast.Store()), iter=call.args[0], ifs=[], is_async=0)])
+                    elif kind == "dict" and isinstance(b, ast.Assign) and len(b.targets) == 1 and isinstance(b.targets[0], ast.Subscript) \
+                            and isinstance(b.targets[0].value, ast.Name) and b.targets[0].value.id == acc \
+                            and not any(isinstance(x, ast.Name) and x.id == acc for x in ast.walk(b.value)) \
+                            and not any(isinstance(x, ast.Name) and x.id == acc for x in ast.walk(b.targets[0].slice)):
+                        new_val = ast.DictComp(key=b.targets[0].slice, value=b.value, generators=[gen])
+                if new_val is not None:
+                    init.value = ast.copy_location(new_val, lp)
+                    ast.fix_missing_locations(init)
+                    del stmts[i + 1]
+            i += 1
+
+    go(fn.body)
+
+
 def canonical(tree: ast.Module) -> ast.Module:
     tree = _Canon().visit(tree)
     _module_passes(tree)
     tree = _Canon2().visit(tree)
     for fn in [n for n in ast.walk(tree) if isinstance(n, (ast.FunctionDef, ast.AsyncFunctionDef))]:
         _dispatch_tables(fn)
+        _accumulator_loops(fn)
         _aliases(fn)
         _explaining_variables(fn)
         _set_updates(fn)
@@ -976,7 +1113,10 @@ class Program:
 
         from .inline import specialise_record_params
 
-        spec = specialise_callbacks(real) + specialise_record_params(real, set(KNOWN_CLASSES))
+        from .inline import flatten_temporary_objects, flatten_decorator_compositions
+
+        spec = flatten_decorator_compositions(real) + specialise_callbacks(real) + specialise_record_params(real, set(KNOWN_CLASSES)) \
+            + flatten_temporary_objects(real, set(KNOWN_CLASSES))
         self.inlined: List[str] = spec + inline_new_helpers(real, set(KNOWN_FUNCTIONS))
         if self.inlined:
             for t in real.values():
